@@ -15,6 +15,8 @@
 //	forged <what> <ver> <hexjson>  a lock with right hashes and signatures whose artifacts are mutually
 //	                               inconsistent must be rejected (monitor only)             -> -
 //	create <k=v ...>               `charon create cluster` in-process + artifact checks (monitor only) -> -
+//	combine t=<t> shares=<k>       emitted by `create`: cmd/combine.Combine on k node directories of the
+//	                               created cluster                                    -> accept | refuse
 //
 // `hash` ops are self-contained (exec mode rebuilds the struct from the dump); `tamper`/`reenc`
 // refer to the last `doc` (reset op).
@@ -1748,32 +1750,38 @@ func (d *drv) opCreate(p createParams) {
 		}
 	}
 
-	// --- the combine command recombines the same keys
+	d.run.Op(p.line(), "-")
+
+	// --- the combine command (real cmd/combine.Combine) on subsets of the node directories:
+	// every subset of exactly threshold size (n <= 5, sampled above), all directories, threshold-1 (must refuse)
 	if p.insec {
-		outDir := filepath.Join(dir, "combined")
-		err := combine.Combine(ctx, dir, outDir, true, false, "", eth2util.Network{}, combine.WithInsecureKeysForT(nil))
-		if err != nil {
-			d.run.Violate(sig("combine_failed"), fmt.Sprintf("%s: %v", p.line(), err))
-		} else if kf, err := keystore.LoadFilesUnordered(outDir); err != nil {
-			d.run.Violate(sig("combine_failed"), fmt.Sprintf("%s: combined keys unreadable: %v", p.line(), err))
+		all := make([]int, p.n)
+		for i := range all {
+			all[i] = i
+		}
+		var sets [][]int
+		if p.n <= 5 {
+			subsets(p.n, p.t, func(idx []int) { sets = append(sets, idx) })
 		} else {
-			ks := kf.Keys()
-			found := 0
-			for _, val := range lock.Validators {
-				for _, s := range ks {
-					if pk, err := tbls.SecretToPublicKey(s); err == nil && bytes.Equal(pk[:], val.PubKey) {
-						found++
-						break
-					}
-				}
+			for k := 0; k < 3; k++ {
+				ix := d.rng.Perm(p.n)[:p.t]
+				sort.Ints(ix)
+				sets = append(sets, ix)
 			}
-			if found != len(lock.Validators) || len(ks) != len(lock.Validators) {
-				d.run.Violate(sig("combine_wrong_key"), fmt.Sprintf("%s: combine produced %d keys, %d match", p.line(), len(ks), found))
+		}
+		if p.t < p.n {
+			sets = append(sets, all)
+			if p.t+1 < p.n {
+				sets = append(sets, d.rng.Perm(p.n)[:p.t+1])
 			}
-			d.run.Count("create:combined")
+		}
+		if p.t >= 2 {
+			sets = append(sets, d.rng.Perm(p.n)[:p.t-1])
+		}
+		for k, idx := range sets {
+			d.opCombine(ctx, dir, k, idx, lock, shares, p)
 		}
 	}
-	d.run.Op(p.line(), "-")
 
 	// the created lock as a file: model reproduces its hashes, leaves, re-encoding, alterations
 	d.opDoc(lock.Version, "lock", compactJSON(lockBytes))
@@ -1781,6 +1789,62 @@ func (d *drv) opCreate(p createParams) {
 	d.hashLockOps(*lock, "created")
 	d.opReenc()
 	d.tamperAll(6)
+}
+
+// opCombine runs the real combine entry point on the node directories `idx` of a created cluster.
+// Op `combine t=<threshold> shares=<number of node directories>` -> accept | refuse (the model answers
+// from the sufficiency rule of Combine); monitors compare the recombined keystores with the
+// tbls.RecoverSecret result of the same subset and with the lock's validator keys.
+func (d *drv) opCombine(ctx context.Context, dir string, k int, idx []int, lock *cluster.Lock, shares [][]tbls.PrivateKey, p createParams) {
+	in := filepath.Join(dir, fmt.Sprintf("combine-in-%d", k))
+	out := filepath.Join(dir, fmt.Sprintf("combine-out-%d", k))
+	abs, err := filepath.Abs(dir)
+	hx.Must(err)
+	for _, i := range idx {
+		nd := filepath.Join(in, fmt.Sprintf("node%d", i))
+		hx.Must(os.MkdirAll(nd, 0o755))
+		hx.Must(os.Symlink(filepath.Join(abs, fmt.Sprintf("node%d", i), "validator_keys"), filepath.Join(nd, "validator_keys")))
+		hx.Must(os.Symlink(filepath.Join(abs, fmt.Sprintf("node%d", i), "cluster-lock.json"), filepath.Join(nd, "cluster-lock.json")))
+	}
+	line := fmt.Sprintf("combine t=%d shares=%d", lock.Threshold, len(idx))
+	descr := fmt.Sprintf("%s: combine on node directories %v (threshold %d)", p.line(), idx, lock.Threshold)
+	cerr := combine.Combine(ctx, in, out, true, false, "", eth2util.Network{}, combine.WithInsecureKeysForT(nil))
+	got := "accept"
+	if cerr != nil {
+		got = "refuse"
+	}
+	d.run.Count(fmt.Sprintf("combine:%s:shares-threshold=%+d", got, len(idx)-lock.Threshold))
+	switch {
+	case len(idx) < lock.Threshold && cerr == nil:
+		d.run.Violate("cluster:combine_accepts_below_threshold", descr)
+	case len(idx) >= lock.Threshold && cerr != nil:
+		d.run.Violate("cluster:combine_refuses_threshold_subset", fmt.Sprintf("%s: %v", descr, cerr))
+	case cerr == nil:
+		kf, err := keystore.LoadFilesUnordered(out)
+		var ks []tbls.PrivateKey
+		if err == nil {
+			ks, err = kf.SequencedKeys()
+		}
+		if err != nil || len(ks) != len(lock.Validators) {
+			d.run.Violate("cluster:combine_wrong_key", fmt.Sprintf("%s: %d combined keystores readable (%v), %d validators", descr, len(ks), err, len(lock.Validators)))
+			break
+		}
+		for j, val := range lock.Validators {
+			m := map[int]tbls.PrivateKey{}
+			for _, i := range idx {
+				if shares[i] != nil {
+					m[i+1] = shares[i][j]
+				}
+			}
+			want, err := tbls.RecoverSecret(m, uint(len(lock.Operators)), uint(lock.Threshold))
+			pk, err2 := tbls.SecretToPublicKey(ks[j])
+			if err != nil || err2 != nil || want != ks[j] || !bytes.Equal(pk[:], val.PubKey) {
+				d.run.Violate("cluster:combine_wrong_key", fmt.Sprintf("%s: combined keystore %d is not the tbls.RecoverSecret result / not the key of validator %d", descr, j, j))
+			}
+		}
+	}
+	d.run.Case(fmt.Sprintf("combine:n%d:t%d:k%d:%s", len(lock.Operators), lock.Threshold, len(idx), got))
+	d.run.Op(line, got)
 }
 
 // ---------------------------------------------------------------------------------------------
@@ -1894,6 +1958,9 @@ func (d *drv) exec(ops []string) {
 				continue
 			}
 			d.execForged(f[1], f[2], b)
+		case f[0] == "combine":
+			// produced (again) by the preceding `create` op: not executable on its own
+			continue
 		case f[0] == "create":
 			p, ok := parseCreate(op)
 			if !ok {
